@@ -8,7 +8,7 @@ use crate::context::{ContextView, ElementMap, TransformerContext};
 use crate::errors::{Result, SvgdxError};
 use crate::events::{InputList, OutputEvent};
 use crate::expression::eval_attr;
-use crate::path::path_bbox;
+use crate::path::{path_bbox, PathSyntax, SvgPathSyntax};
 use crate::position::{
     strp_length, BoundingBox, DirSpec, LocSpec, Position, ScalarSpec, Size, TrblLength,
 };
@@ -887,24 +887,23 @@ impl SvgElement {
 
                 if let Some(points) = self.attrs.get("points") {
                     let mut idx = 0;
-                    for point_ws in points.split_whitespace() {
-                        for point in point_ws.split(',') {
-                            let point = point.trim();
-                            if point.is_empty() {
-                                continue;
-                            }
-                            let point: f32 = strp(point)?;
-                            if idx % 2 == 0 {
-                                min_x = min_x.min(point);
-                                max_x = max_x.max(point);
-                                has_x = true;
-                            } else {
-                                min_y = min_y.min(point);
-                                max_y = max_y.max(point);
-                                has_y = true;
-                            }
-                            idx += 1;
+                    // same number syntax as path data, e.g. "10-20" is two numbers
+                    let mut tokens = SvgPathSyntax::new(points);
+                    tokens.skip_wsp_comma();
+                    while !tokens.at_end() {
+                        let point: f32 = tokens.read_number().map_err(|_| {
+                            SvgdxError::ParseError(format!("Expected a number in '{points}'"))
+                        })?;
+                        if idx % 2 == 0 {
+                            min_x = min_x.min(point);
+                            max_x = max_x.max(point);
+                            has_x = true;
+                        } else {
+                            min_y = min_y.min(point);
+                            max_y = max_y.max(point);
+                            has_y = true;
                         }
+                        idx += 1;
                     }
                     if has_x && has_y {
                         Some(BoundingBox::new(min_x, min_y, max_x, max_y))
